@@ -301,3 +301,62 @@ Proof.
 Qed.
 
 End Ang.
+
+(* ==================================================================================================== *)
+(* Examples over Qc (stand-ins of Proofs/RotationMoreP.v / RotationMoreBlockP.v): det R345 = 1, det Rimp = -1 *)
+From Coq Require Import ZArith QArith Qcanon.
+Section Examples.
+Let KQ : Fops Qc := exKQm.
+Let KQf : is_field KQ := QcK_field _ _ _ _ _ _.
+Let KB : Fops Qc := exKQb.
+Let q (n : Z) (d : positive) : Qc := qc_of n d.
+
+Example det_R345_Rimp :
+  Qeq_bool (det3 KQ (matf R345)) (q 1 1) = true /\ Qeq_bool (det3 KQ (matf Rimp)) (q (-1) 1) = true.
+Proof. split; vm_compute; reflexivity. Qed.
+
+(* the theorem instantiated with the improper rotation: nothing left to assume *)
+Example angular_momentum_rotation_improper :
+  forall k ca cb,
+  Jsum KQ (fun a' => Jsum KQ (fun b' =>
+       angk KQ k (rot_shell KQ Rimp exA) (rot_shell KQ Rimp exB) a' b' (q 3 2) (q 2 3))
+     (rot_expand KQ Rimp cb)) (rot_expand KQ Rimp ca)
+  = fmul KQ (det3 KQ (matf Rimp))
+      (sum3 KQ (fun l => fmul KQ (matf Rimp k l) (angk KQ l exA exB ca cb (q 3 2) (q 2 3)))).
+Proof.
+  intros. apply (angular_momentum_prim_rotation_covariant KQ KQf exKQm_exp_hom Rimp k exA exB ca cb _ _
+                   exKQm_Rimp exKQm_psum).
+Qed.
+
+Definition ang_vec_check (R : @mat3 Qc) (k : axis) (ca cb : comp) : bool :=
+  Qeq_bool
+    (Jsum KQ (fun a' => Jsum KQ (fun b' =>
+         angk KQ k (rot_shell KQ R exA) (rot_shell KQ R exB) a' b' (q 3 2) (q 2 3))
+       (rot_expand KQ R cb)) (rot_expand KQ R ca))
+    (fmul KQ (det3 KQ (matf R))
+       (sum3 KQ (fun l => fmul KQ (matf R k l) (angk KQ l exA exB ca cb (q 3 2) (q 2 3))))).
+Example angular_momentum_rotation_computed :
+  forallb (fun R => forallb (fun k => forallb (fun t => ang_vec_check R k (fst t) (snd t)) ex_pairs)
+     [AX; AY; AZ]) [R345; Rimp] = true.
+Proof. vm_compute. reflexivity. Qed.
+(* the factor det R is needed: without it the law fails for the improper rotation *)
+Example angular_momentum_vector_law_fails_improper :
+  Qeq_bool
+    (Jsum KQ (fun a' => Jsum KQ (fun b' =>
+         angk KQ AX (rot_shell KQ Rimp exA) (rot_shell KQ Rimp exB) a' b' (q 3 2) (q 2 3))
+       (rot_expand KQ Rimp (0, 1, 0)%nat)) (rot_expand KQ Rimp (1, 0, 0)%nat))
+    (sum3 KQ (fun l => fmul KQ (matf Rimp AX l) (angk KQ l exA exB (1, 0, 0)%nat (0, 1, 0)%nat (q 3 2) (q 2 3))))
+  = false.
+Proof. vm_compute. reflexivity. Qed.
+
+(* block level through the list-level model: contracted p (2 segments) x d *)
+Example angmom_block_law_computed :
+  forallb (fun R =>
+    let S := angmom_block_re KB exP exD in
+    let S' := angmom_block_re KB (rot_shell KB R exP) (rot_shell KB R exD) in
+    forallb (fun k => blk2_all R 2
+      (fun ma ia mb ib => fmul KB (det3 KB (matf R))
+         (sum3 KB (fun l => fmul KB (matf R k l) (e5 S (ax2nat l) ma ia mb ib))))
+      (e5 S' (ax2nat k))) [AX; AY; AZ]) [R345; Rimp] = true.
+Proof. vm_compute. reflexivity. Qed.
+End Examples.
